@@ -1662,7 +1662,7 @@ def reader_section(tier, seed, mode='all'):
         vals += [[rand_call(rng), S.make(rng, list, [1, 'a'])] for _ in range(k // 5)]
     if mode in ('all', 'c01'):
         vals += [V.rand_value(rng, budget=rng.choice([3, 8, 20])) for _ in range(k)]
-    if mode == 'c10':
+    if mode in ('c10', 'c11'):
         vals += [V.rand_value(rng, budget=rng.choice([8, 20, 40])) for _ in range(k)]
         vals += subclass_values(rng, k // 3) + [rand_call(rng) for _ in range(k // 3)]
     cases = []
@@ -1673,7 +1673,12 @@ def reader_section(tier, seed, mode='all'):
             v2 = add_comments(rng, v, 0.2)
             if not has_trailing_on_empty_dict_subclass(v2):      # K7
                 v = v2
-        if mode == 'c10':
+        if mode == 'c11':
+            # depth-limited output (sometimes truncated too): placeholders are expressions the reader reads
+            d = rng.choice([0, 1, 2, 3])
+            msl = rng.choice([None, 1000, 2, 3])
+            sets = [(i, w, r, d, msl, 0) for (i, w, r, _, _, _) in settings_for(rng, v, 'quick')[::2]]
+        elif mode == 'c10':
             # truncated (and, where the keys allow it, sorted) output: the reader still reads it - as the first N elements
             msl = rng.choice([1, 2, 3, 5])
             srt = 1 if sortable(V.strip_comments(v)) and not comment_inside_tuple_key(v) and rng.random() < 0.5 else 0
